@@ -161,7 +161,7 @@ for _cn, (_cv, _valid) in IDX_CONTAINERS.items():
             FAULTS[f"index:{_cn}:{_in}:opassign"] = [f"{_cv}[{_ie}] += 1"]
 
 NEED_FN = {"break-outside-loop", "continue-outside-loop"}   # meaningless inside a loop host
-HOSTS = ["module", "fn", "closure", "method", "ctor", "elseif", "while", "from", "imported", "nested-block"]
+HOSTS = ["module", "fn", "closure", "method", "ctor", "elseif", "while", "from", "imported", "nested-block", "module-crlf", "fn-commented"]
 
 
 def build(host, fault):
@@ -199,6 +199,24 @@ def build(host, fault):
         lines = main + CLASS + ["from 0 to 1 {"] + body(1) + ["}"]
     elif host == "nested-block":
         lines = main + CLASS + ["if true {", "\tif true {"] + body(2) + ["\t}", "}"]
+    elif host == "module-crlf":
+        # the same module with CR LF line ends: positions must not drift
+        lines = main + CLASS + body(0)
+        a, bnd = locate(lines)
+        return {"x.ms": "\r\n".join(lines) + "\r\n"}, (faultfile, a, bnd)
+    elif host == "fn-commented":
+        # line comments between and behind the statements, a block comment in front: positions must not drift
+        raw = main + CLASS + ["host = fn() {"] + body(1) + ["}", "host()"]
+        lines = ["### header", "comment ###"]
+        for k, l in enumerate(raw):
+            if k % 3 == 0:
+                lines.append("# note " + str(k))
+            lines.append(l if l.strip() in ("}", "") or l.rstrip().endswith("{") else l + " # t")
+        def bare(l):
+            return l[:-4].strip() if l.endswith(" # t") else l.strip()
+        first = max(i for i, l in enumerate(lines) if bare(l) == flines[0].strip()) + 1
+        last = max(i for i, l in enumerate(lines) if bare(l) == flines[-1].strip() and i + 1 >= first) + 1
+        return {"x.ms": "\n".join(lines) + "\n"}, (faultfile, first, min(last, first + 2 * len(flines)))
     elif host == "imported":
         mod = CLASS + body(0) + ["export done: int = 1"]
         files = {"x.ms": "\n".join(main + ["import mod", "print mod.done"]) + "\n", "mod.ms": "\n".join(mod) + "\n"}
@@ -224,7 +242,7 @@ class C03(Check):
     id = "C03"
     level = "fault_enumeration"
     rule = ("every (host context in {module level, function body, closure body, class method, constructor, else-if arm, while body, from body, "
-            "doubly nested block, imported module}) x (fault of a catalogue of 89 type-breaking edits plus the unknown-name family = {fresh identifier, every "
+            "doubly nested block, imported module, module with CR LF line ends, function body interleaved with comments}) x (fault of a catalogue of 89 type-breaking edits plus the unknown-name family = {fresh identifier, every "
             "identifier-shaped word of grammar.pest} x 12 expression positions (print, operand, right operand, initialiser, callee, argument, list "
             "element, condition, index, receiver, assert, last statement of a block) and the non-index family = 4 container kinds (open list, fixed list, str, map) x "
             "13 index expressions of a wrong kind (literal, variable, non-constant expression) x read / store / op-assignment: wrong-typed annotated initialiser, "
